@@ -13,23 +13,39 @@ TRUSTED = c02.TRUSTED + [
     "redirections on compound commands are modelled as always succeeding and transparent (only `< /dev/null`, `2>/dev/null`, `<<<x` are "
     "generated); assignment-only commands carry at most one command substitution of scripted status (`v=$(exit n)`), the change counter "
     "of set_last_exit_status is modelled as the number of calls made by the command's own expansion",
-    "nounset: a finite decision table (19 expansion forms x 8 parameter kinds) mirrored from expansion.rs by hand, tied to the code and to "
+    "nounset: a finite decision table (27 forms incl. 8 arithmetic contexts x 14 parameter kinds incl. declared-but-unset names; 296 applicable cells) mirrored from expansion.rs by hand, tied to the code and to "
     "bash by running every cell each run; the abort itself (error propagation) is checked on probes only",
     "bash deviates from its own manual when `set -e` is switched on *inside* a `!` compound (it then exits); the specification follows the "
     "manual (and brush); such programs are counted under spec_vs_bash.tolerated",
 ]
 ASSUMPTIONS = c02.ASSUMPTIONS
 
+# order = all_forms / all_kinds of Shell/C03Nounset.v (the entry is index based)
 FORMS = [("FPlain", "${%s}"), ("FDefault", "${%s-d}"), ("FDefaultColon", "${%s:-d}"), ("FAssign", "${%s=d}"), ("FAlt", "${%s+a}"),
          ("FAltColon", "${%s:+a}"), ("FLength", "${#%s}"), ("FRemSufS", "${%s%%p}"), ("FRemSufL", "${%s%%%%p}"), ("FRemPreS", "${%s#p}"),
          ("FRemPreL", "${%s##p}"), ("FSubstring", "${%s:1}"), ("FUpper1", "${%s^}"), ("FUpperAll", "${%s^^}"), ("FLower1", "${%s,}"),
-         ("FLowerAll", "${%s,,}"), ("FReplace", "${%s/a/b}"), ("FTransformQ", "${%s@Q}"), ("FTransformU", "${%s@U}")]
+         ("FLowerAll", "${%s,,}"), ("FReplace", "${%s/a/b}"), ("FTransformQ", "${%s@Q}"), ("FTransformU", "${%s@U}"),
+         # arithmetic contexts: the %s is a variable *name* inside an expression
+         ("FArithExp", 'echo "[$(( %s + 1 ))]" >/dev/null'), ("FArithCmd", "(( %s + 1 )); :"), ("FLet", 'let "%s + 1"; :'),
+         ("FSubscript", 'echo "[${arr[%s]}]" >/dev/null'), ("FSubstrOff", 'echo "[${s:%s}]" >/dev/null'),
+         ("FSubstrLen", 'echo "[${s:0:%s}]" >/dev/null'), ("FArithFor", "for (( i=%s; i<1; i++ )); do :; done"), ("FAssignSub", "arr[%s]=1")]
+NPARAM_FORMS = 19
 KINDS = [("KNamedUnset", ":", "nv"), ("KPositionalUnset", ":", "3"), ("KIndexUnsetVar", ":", "nv[0]"), ("KIndexUnsetElem", "arr=(a b)", "arr[5]"),
-         ("KAllUnsetVar", ":", "nv[@]"), ("KAllEmptyArr", "arr=()", "arr[@]"), ("KSpecialAt", ":", "@"), ("KSpecialStar", ":", "*")]
+         ("KAllUnsetVar", ":", "nv[@]"), ("KAllEmptyArr", "arr=()", "arr[@]"), ("KSpecialAt", ":", "@"), ("KSpecialStar", ":", "*"),
+         ("KDeclared", "declare dv", "dv"), ("KDeclaredInt", "declare -i di", "di"), ("KExported", "export ev", "ev"),
+         ("KLocal", "local lv", "lv"), ("KUnsetAfterSet", "uv=1; unset uv", "uv"), ("KDeclaredArr", "declare -a da", "da")]
 
 
 def nounset_script(fi, ki):
-    return 'set -u; %s; echo "[%s]" >/dev/null; echo ok' % (KINDS[ki][1], FORMS[fi][1] % KINDS[ki][2])
+    pre, name = KINDS[ki][1], KINDS[ki][2]
+    if fi < NPARAM_FORMS:
+        body = 'echo "[%s]" >/dev/null' % (FORMS[fi][1] % name)
+    else:
+        body = FORMS[fi][1] % name
+        pre = "arr=(a b c); s=abc; " + pre
+    if KINDS[ki][0] == "KLocal":
+        return "set -u; f() { %s; %s; echo ok; }; f" % (pre, body)
+    return "set -u; %s; %s; echo ok" % (pre, body)
 
 
 def nounset(ctx):
@@ -59,7 +75,7 @@ def nounset(ctx):
             v = {"input": script, "why": "under set -u brush %s this expansion, bash %s it" % (
                 "rejects" if not ok else "accepts", "rejects" if bash_rej else "accepts")}
             if t[2] == "1":
-                v["known"] = "KF-C03-nounset-length-array"
+                v["known"] = "KF-C03-nounset-let" if FORMS[fi][0] == "FLet" else "KF-C03-nounset-length-array"
             specv.append(v)
     # exit status of the abort
     probe = "set -u; echo $nv; echo ok"
@@ -100,9 +116,19 @@ def run(ctx):
     ev = lib.evaluate(ctx, progs, bash_sample=400 if ctx.quick else 40000, tolerate=bash_quirk)
     res = c02.result(ctx, ev, progs, extra_rule="C03: `set -e` / `set -o pipefail` are prepended to 65%/30% of the programs and `set +-e`, "
                      "`set +-o pipefail` leaves occur anywhere (functions, subshells, conditions); failing leaves are frequent. "
-                     "nounset: all 19x8 cells of the (expansion form x parameter kind) table are run on brush and bash.")
+                     "nounset: all applicable cells of the (27 forms incl. arithmetic contexts x 14 parameter kinds incl. declared-but-unset names) table are run on brush and bash.")
     # findings of C02 seen on the way are C02's business: only C03 classes and unclassified differences count here
     res["spec_violations"] = [v for v in res["spec_violations"] if not str(v.get("known", "")).startswith("KF-C02-")]
+    from props import c03sub
+    specv2, st2 = c03sub.run(ctx, 1500 if ctx.quick else 15000)
+    res["spec_violations"] += specv2
+    res["evaluations"] += st2["programs"]
+    res["distribution"]["differential_only_substitution_eval"] = st2
+    res["notes"] = ("proof-backed (Coq model + simulation theorem + correspondence): the control-flow/errexit/pipefail fragment incl. "
+                    "redirected compounds and assignment-only commands, and the nounset decision table; differential-only (brush vs "
+                    "/usr/bin/bash in the verdict, no Coq model): errexit through $(list) in assignments/arguments/local, <(list), eval, "
+                    "with shopt inherit_errexit on/off/toggled and set -e inside the substitution, from plain/if/||/&&/!/while/subshell/"
+                    "function-in-condition contexts (distribution.differential_only_substitution_eval)")
     mism, specv, sb, ncells = nounset(ctx)
     res["model_mismatches"] += mism
     res["spec_violations"] += specv
